@@ -1189,3 +1189,53 @@ def rule_B5(prog):
                 r.find(fn.path, "compact-emits", "Compact::%s calls the inner hook directly: the op bypasses the "
                        "buffer and is delivered out of order" % name, file=fn.file, line=fn.line)
     return r
+
+
+def rule_B6(prog):
+    r = RuleResult("B6", "Patience::equal handles every anchor completely: in its anchor loop every iteration that does not "
+                         "leave through an error passes through the gap diff (the inner myers call on the NoFinishHook) and "
+                         "then moves both cursors to the anchor; no `continue`/early path skips them")
+    pr = proto(prog)
+    for imp in pr.impls:
+        if ty_head(imp["self_ty"]) != "algorithms::patience::Patience":
+            continue
+        fn = prog.fn(imp["methods"].get("equal", ""))
+        if fn is None:
+            r.find(imp["raw"]["path"], "no-equal", "Patience does not override equal")
+            continue
+        m = fn.mir
+        loops = m.loops()
+        gap = [(bb, t) for bb, t in m.calls() if (m.callee(t) or {}).get("path", "").endswith("myers::diff_deadline")]
+        r.instances += 1
+        if len(gap) != 1 or not loops:
+            r.ob(False, "Patience::equal: %d gap-diff calls, %d loops" % (len(gap), len(loops)))
+            r.find(fn.path, "gap-shape", "Patience::equal must contain exactly one inner myers::diff_deadline call inside its anchor loop "
+                   "(found %d calls, %d loops)" % (len(gap), len(loops)), file=fn.file, line=fn.line)
+            continue
+        gb = gap[0][0]
+        outer = [(h, body) for h, body in loops if gb in body]
+        outer.sort(key=lambda x: -len(x[1]))
+        if not outer:
+            r.ob(False, "gap diff is not inside a loop")
+            r.find(fn.path, "gap-outside-loop", "the gap diff of Patience::equal is not inside the anchor loop", file=fn.file, line=gap[0][1]["line"])
+            continue
+        h, body = outer[0]
+        backs = [(a, b) for (a, b) in m.back_edges() if b == h]
+        bad = [a for (a, b) in backs if not m.dominates(gb, a)]
+        # cursor stores: self.old_current / self.new_current assigned after the gap diff
+        stores = {}
+        for i in body:
+            for s_ in m.blocks[i]["stmts"]:
+                if s_["k"] == "assign" and s_["p"]["l"] == 1:
+                    names = [e.get("name") for e in s_["p"]["proj"] if isinstance(e, dict) and "field" in e]
+                    if names and names[0] in ("old_current", "new_current") and m.dominates(gb, i) and i != gb:
+                        stores.setdefault(names[0], []).append(i)
+        ok = not bad and set(stores) == {"old_current", "new_current"} and all(
+            all(any(m.dominates(sb, a) for sb in blocks) for (a, b) in backs) for blocks in stores.values())
+        r.ob(ok, "Patience::equal: %d back edge(s) of the anchor loop, %d not dominated by the gap diff; cursor stores after it: %s" % (
+            len(backs), len(bad), sorted(stores)))
+        if not ok:
+            r.find(fn.path, "anchor-skipped", "Patience::equal: some iteration of the anchor loop reaches the next anchor without the "
+                   "gap diff and the cursor updates (back edges not dominated by the gap diff: %d; cursors stored after it on every "
+                   "iteration: %s)" % (len(bad), sorted(stores)), file=fn.file, line=gap[0][1]["line"])
+    return r
